@@ -1325,6 +1325,10 @@ class Interp:
             if fac is None:
                 return collections.defaultdict()
             raise AnalysisError("defaultdict with a non-builtin factory not modelled")
+        if name in ("collections.Counter", "Counter"):
+            import collections
+
+            return collections.Counter(list(self._iterate(args[0])) if args and not isinstance(args[0], dict) else (args[0] if args else ()))  # a multiset of hashable values (pure data)
         if name in ("functools.partial", "partial") and args:
             return Partial(args[0], list(args[1:]), dict(kwargs))
         if short == "suppress":
